@@ -62,7 +62,7 @@ class TransactionManager:
 
         self._txn_partitions = set()
         self._pending_txn_partitions = set()
-        self._txn_consumer_group = None
+        self._txn_consumer_groups = set()
         self._pending_txn_offsets = deque()
 
     # INDEMPOTANCE PART
@@ -134,13 +134,13 @@ class TransactionManager:
         assert not self._pending_txn_offsets
         self._transition_to(TransactionState.READY)
         self._txn_partitions.clear()
-        self._txn_consumer_group = None
+        self._txn_consumer_groups.clear()
         if not self._transaction_waiter.done():
             self._transaction_waiter.set_result(None)
 
     def error_transaction(self, exc):
         self._transition_to(TransactionState.ABORTABLE_ERROR)
-        # Keep `_txn_partitions` / `_txn_consumer_group`: they say what the
+        # Keep `_txn_partitions` / `_txn_consumer_groups`: they say what the
         # coordinator has registered for this transaction, and the abort has
         # to end it there with an EndTxn(ABORT).
         self._pending_txn_partitions.clear()
@@ -152,7 +152,7 @@ class TransactionManager:
     def fatal_error(self, exc):
         self._transition_to(TransactionState.FATAL_ERROR)
         self._txn_partitions.clear()
-        self._txn_consumer_group = None
+        self._txn_consumer_groups.clear()
         self._pending_txn_partitions.clear()
         for _, _, fut in self._pending_txn_offsets:
             fut.set_exception(exc)
@@ -185,17 +185,19 @@ class TransactionManager:
         return self._pending_txn_partitions
 
     def consumer_group_to_add(self):
-        if self._txn_consumer_group is not None:
-            return None
+        # Every group has to be added to the transaction before its offsets
+        # can be committed, not only the first one of the transaction
         for group_id, _, _ in self._pending_txn_offsets:
-            return group_id
+            if group_id not in self._txn_consumer_groups:
+                return group_id
+            return None
         return None
 
     def offsets_to_commit(self):
-        if self._txn_consumer_group is None:
-            return None
         for group_id, offsets, _ in self._pending_txn_offsets:
-            return offsets, group_id
+            if group_id in self._txn_consumer_groups:
+                return offsets, group_id
+            return None
         return None
 
     def partition_added(self, tp: TopicPartition):
@@ -203,7 +205,7 @@ class TransactionManager:
         self._txn_partitions.add(tp)
 
     def consumer_group_added(self, group_id):
-        self._txn_consumer_group = group_id
+        self._txn_consumer_groups.add(group_id)
 
     def offset_committed(self, tp, offset, group_id):
         pending_group_id, pending_offsets, fut = self._pending_txn_offsets[0]
@@ -229,7 +231,7 @@ class TransactionManager:
 
     def is_empty_transaction(self):
         # whether we sent either data to a partition or committed offset
-        return len(self.txn_partitions) == 0 and self._txn_consumer_group is None
+        return len(self.txn_partitions) == 0 and not self._txn_consumer_groups
 
     def is_fatal_error(self):
         return self.state == TransactionState.FATAL_ERROR
